@@ -3,8 +3,9 @@
 //!
 //!   nc  <namehex>            name_change(name)                      -> OK <hex>
 //!   hc  <namehex>            hostname_change(name)                  -> OK <hex>
-//!   cmp <rec> <rec>          DnsRecordExt::compare / rrdata_match   -> OK <-1|0|1> <0|1>
-//!                            (rec in k1::parse_rec syntax)
+//!   cmp <a> <b>              DnsRecordExt::compare / rrdata_match   -> OK <cmp a b> <rrdata_match a b> <cmp b a>
+//!   cmp3 <a> <b> <c>         compare on three records               -> OK <cmp a b> <cmp b c> <cmp a c>
+//!                            (records in k1::parse_rec syntax; cmp values -1|0|1)
 //!   sim <history json>       one simulated-daemon history (same as `harness sim`), so that a
 //!                            property can mix component cases and histories in one run
 #[allow(unused_imports)]
@@ -29,9 +30,23 @@ pub fn run(t: &[&str]) -> Option<String> {
             let (Some(a), Some(b)) = (crate::k1::parse_rec(t[1]), crate::k1::parse_rec(t[2])) else {
                 return Some("SKIP".into());
             };
-            match vh::rel(&a, &b) {
-                Some((_m, rm, c, _s)) => Some(format!("OK {} {}", c, rm as u8)),
-                None => Some("SKIP".into()),
+            match (vh::rel(&a, &b), vh::rel(&b, &a)) {
+                (Some((_m, rm, c, _s)), Some((_, _, c2, _))) => Some(format!("OK {} {} {}", c, rm as u8, c2)),
+                _ => Some("SKIP".into()),
+            }
+        }
+        "cmp3" => {
+            if t.len() != 4 {
+                return Some("BADCASE".into());
+            }
+            let (Some(a), Some(b), Some(c)) =
+                (crate::k1::parse_rec(t[1]), crate::k1::parse_rec(t[2]), crate::k1::parse_rec(t[3]))
+            else {
+                return Some("SKIP".into());
+            };
+            match (vh::rel(&a, &b), vh::rel(&b, &c), vh::rel(&a, &c)) {
+                (Some(x), Some(y), Some(z)) => Some(format!("OK {} {} {}", x.2, y.2, z.2)),
+                _ => Some("SKIP".into()),
             }
         }
         "sim" => {
